@@ -234,7 +234,7 @@ def run_shard(shard, ctx):
                     def gen(r, i):
                         dname = "float32" if r.random() < 0.2 else "float64"
                         mats, m = make_matrices(r, dname)
-                        return {"history": H[hi], "k": k, "max_norm": mn, "matrices": mats, "dtype": dname, "optim_niter": [20, 20, 5, 50][int(r.integers(4))]}
+                        return {"history": H[hi], "k": k, "max_norm": mn, "matrices": mats, "dtype": dname, "optim_niter": [20, 20, 5, 50, 1, 2, 3][int(r.integers(7))]}
                     run_cases(ctx, rng, 1, gen, check_case)
             ctx.count("histories_exhaustive")
     else:
@@ -243,7 +243,7 @@ def run_shard(shard, ctx):
             mats, m = make_matrices(r, dname)
             n = int(r.integers(4, 9))
             hist = [("M1", "M2", "reset")[int(x)] for x in r.choice(3, size=n, p=[0.42, 0.42, 0.16])]
-            return {"history": hist, "k": int(r.integers(1, 5)), "max_norm": NORMS[int(r.integers(4))], "matrices": mats, "dtype": dname, "optim_niter": [20, 20, 5, 50][int(r.integers(4))]}
+            return {"history": hist, "k": int(r.integers(1, 5)), "max_norm": NORMS[int(r.integers(4))], "matrices": mats, "dtype": dname, "optim_niter": [20, 20, 5, 50, 1, 2, 3][int(r.integers(7))]}
         run_cases(ctx, rng, shard["n"], gen, check_case)
 
 
